@@ -7,13 +7,13 @@ props = [json.loads(l) for l in open(os.path.join(ROOT, 'properties.jsonl'))]
 # id -> (technique, level text, level note, design section, has_thorough)
 CHECKS = {
  'C01': ("bounded-exhaustive lattice / layer-sequence enumeration of the real backward pass against exact dual-number derivatives of a reference model",
-         "Quick: ring of <= 2 deviations of the single-layer lattice, dense layers, every layer sequence of <= 2 tokens (one deviation) over 5 input shapes under 7 objectives, soft-max heads; thorough: the full lattice (1.3e5 configurations incl. every stride/dilation/padding combination, rectangular kernels and planes) and sequences of <= 3 tokens with <= 2 deviations. Weight, bias, kernel and input gradients, through the layers' public backward(), Network::backward and one learn() step.",
+         "Quick: ring of <= 2 deviations of the single-layer lattice, dense layers, every layer sequence of <= 2 tokens (one deviation) over 5 input shapes under 7 objectives, soft-max heads; thorough: the full lattice (1.3e5 configurations incl. every stride/dilation/padding combination, rectangular kernels and planes) and sequences of <= 3 tokens with <= 2 deviations. Weight, bias, kernel and input gradients, through the layers' public backward(), Network::backward and one learn() step; every network is also built a second way (placeholder activations + set_activation); planes from 1x1 to 6x7.",
          "Real-valued data is a generic kink-free valuation per configuration (not enumerable); reference forward is bound to the library by C02; tolerance 2e-4 relative to the tensor's largest true derivative.", "4 C01", True),
  'C02': ("exhaustive enumeration of the single-layer configuration lattice and of bounded layer sequences on the real forward pass against a definitional reference, flat-vs-CxHxW differential",
          "The FULL lattice (kernel 1-3 x stride 1-2/3 x padding 0-2 x dilation 1-2 x channels x filters x 16 planes) for convolution, deconvolution and max-pool on pairwise-distinct integer data in both input representations, the deviation ring x 5 activations, all dense n,m <= 4, and every layer sequence of <= 3 tokens; pre- and post-activation of every layer compared.",
          "Reference operators in refmodel/layers.rs are trusted; data values are fixed exact valuations per configuration.", "4 C02", True),
  'C04': ("exhaustive enumeration of all (N,B,E) up to the bound x networks x optimizers against a reference trainer replaying per-sample library passes",
-         "All 126 (N,B,E) combinations incl. B=1, B not dividing N, B>N x 4 networks (one-hot dense, MLP, CNN, feedback block) x 4 optimizers x 2 objectives; final weights and per-epoch losses of learn() vs ordered mini-batch gradient-sum descent with one step per group and step number = epoch (bit-exact on every run so far).",
+         "All 126 (N,B,E) combinations incl. B=1, B not dividing N, B>N, plus groups around/above the internal chunk size 64 and pairs of consecutive learn() calls, x 4 networks (one-hot dense, MLP, CNN, feedback block) x 4 optimizers x 2 objectives; final weights and per-epoch losses of learn() vs ordered mini-batch gradient-sum descent with one step per group and step number = epoch (bit-exact on every run so far).",
          "Per-sample gradients and the optimizer step come from the library itself (decided by C01/C03); N <= 6, E <= 3.", "4 C04", False),
  'C08': ("explicit-state exploration of the network builder (layer sequences as states) plus exhaustive sweep of all flat sizes up to the bound",
          "Every layer sequence of <= 3 tokens (<= 1 deviation; thorough: 2, and depth 4): announced vs formula shapes, produced vs announced shapes in a real forward pass, gradient vs parameter shapes in a real backward pass; every flat size 1..4096 (65536) in front of each spatial layer kind: accepted iff perfect square, and read as 1 x r x r in row-major order.",
